@@ -205,6 +205,76 @@ DEEP_HISTORY_ORTH = '''statechart:
                   - name: m1
 '''
 
+SHARED_TEXT = '''statechart:
+  name: the same code text used as executed code, as a guard and as a contract condition
+  preamble: "x = 0\\ny = 0\\ng = 4095\\nc = 0\\ndef ok():\\n    return True\\nclass Box:\\n    pass\\nb = Box()\\nb.v = 0"
+  root state:
+    name: root
+    initial: booting
+    states:
+      - name: booting
+        on entry: ok()
+        transitions:
+          - target: running
+            event: e0
+            action: "b.v = b.v + 5"
+            contract:
+              - after: b.v == __old__.b.v + 5
+      - name: running
+        on exit: ok()
+        contract:
+          - before: ok()
+          - always: ok()
+          - always: b.v >= __old__.b.v
+        transitions:
+          - target: booting
+            event: e1
+            guard: ok()
+            action: ok()
+          - event: e2
+            action: b.v = b.v + 1
+'''
+
+SINGLE_CHARS = '''statechart:
+  name: state names that are single characters of other state names
+''' + PRE + '''  root state:
+    name: root
+    initial: running
+    states:
+      - name: running
+        parallel states:
+          - name: x
+            initial: x0
+            transitions:
+              - event: reset
+                action: x = x + 100
+            states:
+              - name: x0
+          - name: aux
+            initial: aux1
+            states:
+              - name: aux1
+                transitions:
+                  - target: aux0
+                    event: reset
+              - name: aux0
+                transitions:
+                  - target: aux1
+                    event: reset
+          - name: u
+            initial: '1'
+            transitions:
+              - event: reset
+                guard: (g >> 0) & 1 == 1
+                action: y = y + 1
+            states:
+              - name: '1'
+              - name: a
+                transitions:
+                  - target: '1'
+                    event: reset
+'''
+
 NONCONTIGUOUS = '''statechart:
   name: transitions of one state not declared contiguously (built through the API)
 ''' + PRE + '''  root state:
@@ -227,6 +297,29 @@ NONCONTIGUOUS = '''statechart:
 '''
 
 
+def deep_chain_yaml(depth=12):
+    """root > line > {idle, s1 ... nested `depth` levels (level2..), H* deep history, h shallow history}; names like s1 / s10
+    (one a prefix of the other), nesting deeper than 9 (two-digit depths)"""
+    ind = lambda k: '  ' * k
+    out = ['statechart:', '  name: deep chain', PRE.rstrip('\n'), '  root state:', '    name: root', '    initial: line', '    states:',
+           '      - name: out', '        transitions:', '          - target: Hd', '            event: e1',
+           '          - target: Hs', '            event: e2', '          - target: line', '            event: e0',
+           '      - name: line', '        initial: Hs', '        transitions:', '          - target: out', '            event: e0',
+           '        states:', '          - name: Hd', '            type: deep history', '            memory: s10',
+           '          - name: Hs', '            type: shallow history', '            memory: s10',
+           '          - name: s1', '            on entry: x = x + 1',
+           '          - name: s10', '            initial: level2', '            on entry: y = y + 1', '            states:']
+    k = 7
+    for lvl in range(2, depth + 1):
+        out.append(ind(k) + '- name: level%d' % lvl)
+        out.append(ind(k) + '  on entry: x = x + %d' % lvl)
+        if lvl < depth:
+            out.append(ind(k) + '  initial: level%d' % (lvl + 1))
+            out.append(ind(k) + '  states:')
+            k += 2
+    return '\n'.join(out) + '\n'
+
+
 def q(name, **kw):
     return ('queue', name, tuple(sorted(kw.items())))
 
@@ -247,6 +340,13 @@ def entries():
     out.append(('deep_history_orthogonal', DEEP_HISTORY_ORTH, None,
                 [('exec',), q('f'), ('exec',), ('exec',), q('e0'), ('exec',), q('e1'), ('exec',), q('e0'), ('exec',), q('e2'), ('exec',),
                  q('f'), ('exec',), q('e0'), ('exec',), q('e1'), ('exec',)]))
+
+    out.append(('deep_chain_history', deep_chain_yaml(12), None,
+                [('exec',), q('e0'), ('exec',), q('e1'), ('exec',), q('e0'), ('exec',), q('e2'), ('exec',), q('e0'), ('exec',), q('e0'), ('exec',)]))
+    out.append(('single_char_names', SINGLE_CHARS, None,
+                [('exec',), q('reset'), ('exec',), q('reset'), ('exec',), ('bits', 4094), q('reset'), ('exec',), q('reset'), ('exec',)]))
+    out.append(('shared_code_text', SHARED_TEXT, None,
+                [('exec',), q('e0'), ('exec',), q('e2'), ('exec',), q('e1'), ('exec',), q('e0'), ('exec',), q('e2'), ('exec',), ('exec',)]))
 
     def add_noncontiguous(sc):
         from sismic.model import Transition
